@@ -1014,8 +1014,8 @@ func runOracle(c *mon.Case) {
 }
 
 func main() {
-	mon.SetNote("rule", "matrix: case = random protein alignment (2..6 rows x 1..200 columns; rows are mutated copies at rates 0..1 of a base drawn from uniform / skewed / 2-6 letter compositions, so that identical, close, far, saturated pairs occur; gap runs, X, '*', '.'; special shapes: pair without comparable column, gap in every column, difference hidden under a gap, ambiguous-only differences) x option set (7 models x model/empirical frequencies x gamma alpha in {0.3,0.5,1,2,4} or uniform [0.2,5] x rm-gaps x weights nil/unit/fractional/bootstrap counts with zeros x model object fresh or already used on another alignment). Every entry is decided by an independent likelihood (see assumptions); 60% of the matrices are recomputed after a random row permutation and 60% after a random column permutation (with the weights). Non-trivial = at least one pair whose reported distance is strictly between 0 and 20 and was compared with the oracle's maximiser; distinct = (rows, options). witness: fixed inputs of every defect found (and boundaries); reinit: one model object initialised for a first alignment, then for a second one whose matrix is checked (600 / 10000 cases); tables: the 7 exported data tables against literature pins; oracle: the oracle's own P(d) against a Taylor series exponential.")
-	mon.SetNote("assumptions", "trusted base: the exchangeability / frequency tables exported by models/protein (XxxMats), read through the public API; their frequency vectors and three exchangeabilities per model are pinned to the values of the PAML .dat files / the HIVb paper typed from the literature (AB: regression fingerprint only);; oracle: Q=S.diag(pi) normalised to one substitution per unit time, symmetrised with sqrt(pi), gonum EigenSym (cross-checked at run time against a scaling-and-squaring Taylor exponential, sub-check oracle), gamma factor (1-lambda d/alpha)^-alpha; lnL(d)=sum F_ij ln(pi_i P_ij(d)) with F the weighted table of the selected columns where both rows hold one of the 20 amino acids; candidates: 240 point geometric grid on [1e-8,100] refined by golden section + d*(1+-{1e-4,1e-3,1e-2,0.1}); tolerance 1e-6 on the per-site log likelihood;; open corners accepted in every reading (one reading must explain the whole matrix): rm-gaps drops columns holding '-' only or any non amino-acid character; empirical frequencies ignore unknown characters or spread them over the 20 amino acids; pseudo counts of one when a count is below 1/20 or only when one is null;; a pair that differs somewhere but has no comparable selected site may hold any value of [0,20];; an entry at the cap 20 stands for '20 or more': it is a violation only when a distance below the cap beats the best distance of [20,100] by more than 1e-4;; when the reported distance is a maximiser among its neighbours (walking away on the grid the likelihood falls by more than the tolerance before it exceeds it) but another local maximum is higher, the signature is local-maximum / capped-local-maximum instead of not-maximiser / capped-not-saturated (the statement is still violated: the likelihood has several maxima and the search is local);; 'no unambiguous difference' is read over all columns (distance exactly 0); when the only differences sit in columns dropped by rm-gaps or of null weight the likelihood check applies (maximiser = lower end of the range);; permutation relations hold within 1e-5 relative to max(1,d);; lower case, B, Z, J, O, U and '?' are outside the quantifier (20 amino acids, gaps, X, '*') and not generated; MLDist starts no goroutine and shares nothing but the model object between calls (read of lk.go / model.go), so there is no -race sub-check: the model object is instead reused across alignments in 20% of the cases")
+	mon.SetNote("rule", "matrix: case = random protein alignment (2..6 rows x 1..200 columns; rows are mutated copies at rates 0..1 of a base drawn from uniform / skewed / 2-6 letter compositions, so that identical, close, far, saturated pairs occur; gap runs, X, '*', '.'; special shapes: pair without comparable column, gap in every column, difference hidden under a gap, ambiguous-only differences) x option set (7 models x model/empirical frequencies x gamma alpha in {0.3,0.5,1,2,4} or uniform [0.2,5] x rm-gaps x weights nil/unit/fractional/bootstrap counts with zeros x model object fresh or already used on another alignment). Every entry is decided by an independent likelihood (see assumptions); 60% of the matrices are recomputed after a random row permutation and 60% after a random column permutation (with the weights). Non-trivial = at least one pair whose reported distance is strictly between 0 and 20 and was compared with the oracle's maximiser; distinct = (rows, options). witness: fixed inputs of every defect found (and boundaries); reinit: one model object initialised for a first alignment, then for a second one whose matrix is checked (600 / 10000 cases); tables: the 7 exported data tables against literature pins; oracle: the oracle's own P(d) against a Taylor series exponential. cli: `goalign compute distance -m <protein model>` through the binary built from the tree under test on 1..3 alignments (FASTA / Phylip relaxed and strict with several alignments in one file / --auto-detect / Nexus / Clustal / Stockholm) with the model names of the help text as printed (DAYHOFF JTT MtRev LG WAG) and in lower case + hivb, ab, --alpha, -r, -t, -o or stdout, --alphabet, -a (second run, compared with the mean of the matrix); every written matrix goes through the same likelihood checks as MLDist's (checkPair); every third case runs `goalign build distboot` (-m, --alpha, -r, -f, -n, --seed, -t): the replicates are rebuilt with rand.Seed(seed) + BuildBootstrap(frac) and each matrix is checked on its replicate; unknown model / flag, missing file must end with an error message and a non zero status; nucleotide-only flags (--range1/2, --gap-mut, --rm-ambiguous) may be refused or ignored.")
+	mon.SetNote("assumptions", "trusted base: the exchangeability / frequency tables exported by models/protein (XxxMats), read through the public API; their frequency vectors and three exchangeabilities per model are pinned to the values of the PAML .dat files / the HIVb paper typed from the literature (AB: regression fingerprint only);; oracle: Q=S.diag(pi) normalised to one substitution per unit time, symmetrised with sqrt(pi), gonum EigenSym (cross-checked at run time against a scaling-and-squaring Taylor exponential, sub-check oracle), gamma factor (1-lambda d/alpha)^-alpha; lnL(d)=sum F_ij ln(pi_i P_ij(d)) with F the weighted table of the selected columns where both rows hold one of the 20 amino acids; candidates: 240 point geometric grid on [1e-8,100] refined by golden section + d*(1+-{1e-4,1e-3,1e-2,0.1}); tolerance 1e-6 on the per-site log likelihood;; open corners accepted in every reading (one reading must explain the whole matrix): rm-gaps drops columns holding '-' only or any non amino-acid character; empirical frequencies ignore unknown characters or spread them over the 20 amino acids; pseudo counts of one when a count is below 1/20 or only when one is null;; a pair that differs somewhere but has no comparable selected site may hold any value of [0,20];; an entry at the cap 20 stands for '20 or more': it is a violation only when a distance below the cap beats the best distance of [20,100] by more than 1e-4;; when the reported distance is a maximiser among its neighbours (walking away on the grid the likelihood falls by more than the tolerance before it exceeds it) but another local maximum is higher, the signature is local-maximum / capped-local-maximum instead of not-maximiser / capped-not-saturated (the statement is still violated: the likelihood has several maxima and the search is local);; 'no unambiguous difference' is read over all columns (distance exactly 0); when the only differences sit in columns dropped by rm-gaps or of null weight the likelihood check applies (maximiser = lower end of the range);; permutation relations hold within 1e-5 relative to max(1,d);; lower case, B, Z, J, O, U and '?' are outside the quantifier (20 amino acids, gaps, X, '*') and not generated; MLDist starts no goroutine and shares nothing but the model object between calls (read of lk.go / model.go), so there is no -race sub-check: the model object is instead reused across alignments in 20% of the cases;; cli: the help text does not say which amino acid frequencies `compute distance` / `build distboot` use: a matrix is accepted when it passes with the model's frequencies or with the empirical frequencies of the alignment;; cli: a protein model name is documented by the list of the help text (DAYHOFF, JTT, MtRev, LG, WAG): both that spelling and its lower case form must be accepted, as well as hivb and ab (models of the property);; cli: an alignment made of letters common to both alphabets is given with --alphabet aa;; cli distboot: replicates = math/rand seeded with --seed + Alignment.BuildBootstrap in the monitor process (go.mod go 1.21.6), checked once per process against `build seqboot --seed`; without --seed only number, shape and labels of the matrices are checked;; cli: distances are written with 12 decimals, far below the likelihood tolerance")
 	for _, m := range modelNames {
 		mon.Floor("model:"+m, 300)
 		mon.Floor("tables:"+m, 1)
@@ -1041,11 +1041,54 @@ func main() {
 	mon.Floor("witness", len(witnesses))
 	mon.Floor("reinit:model-frequencies", 100)
 	mon.Floor("reinit:empirical-frequencies", 100)
+	// cli sub-check: every model name, every input mode, every flag given and omitted, every refusal
+	for _, ma := range cliModelArgs {
+		mon.Floor("cli:model-flag:"+ma.arg, 12)
+	}
+	for _, f := range []string{"fasta", "phylip", "phylip-strict", "auto-fasta", "auto-phylip", "nexus", "clustal", "stockholm"} {
+		mon.Floor("cli:format:"+f, 12)
+	}
+	for _, k := range cliRefusals {
+		mon.Floor("cli:refusal:"+k, 4)
+	}
+	mon.Floor("cli:matrices-checked", 250)
+	mon.Floor("cli:several-alignments", 50)
+	mon.Floor("cli:pair:optimised", 500)
+	mon.Floor("cli:alpha", 60)
+	mon.Floor("cli:no-alpha", 60)
+	mon.Floor("cli:rm-gaps", 40)
+	mon.Floor("cli:threads", 40)
+	mon.Floor("cli:average", 30)
+	mon.Floor("cli:output:stdout", 30)
+	mon.Floor("cli:output:file", 100)
+	mon.Floor("cli:alphabet:aa", 20)
+	for _, ma := range cliModelArgs {
+		mon.Floor("cli:distboot:model-flag:"+ma.arg, 8)
+	}
+	for _, f := range []string{"fasta", "phylip", "phylip-strict", "auto-fasta", "auto-phylip"} {
+		mon.Floor("cli:distboot:format:"+f, 8)
+	}
+	for _, k := range bootRefusals {
+		mon.Floor("cli:distboot:refusal:"+k, 2)
+	}
+	mon.Floor("cli:distboot:matrices-checked", 120)
+	mon.Floor("cli:distboot:pair:optimised", 300)
+	mon.Floor("cli:distboot:alpha", 25)
+	mon.Floor("cli:distboot:no-alpha", 25)
+	mon.Floor("cli:distboot:rm-gaps", 25)
+	mon.Floor("cli:distboot:threads", 20)
+	mon.Floor("cli:distboot:nboot-default", 10)
+	mon.Floor("cli:distboot:nboot:3", 10)
+	mon.Floor("cli:distboot:frac-default", 25)
+	mon.Floor("cli:distboot:frac:0.5", 8)
+	mon.Floor("cli:distboot:no-seed", 8)
+	mon.Floor("cli:distboot:first-alignment-of-several", 15)
 	mon.Main("C17", []mon.Sub{
 		{Name: "witness", Quick: len(witnesses), Thorough: len(witnesses), Run: runWitness},
 		{Name: "tables", Quick: 7, Thorough: 7, Run: runTables},
 		{Name: "oracle", Quick: 420, Thorough: 4200, Run: runOracle},
 		{Name: "matrix", Quick: 8000, Thorough: 150000, Run: runMatrix},
 		{Name: "reinit", Quick: 600, Thorough: 10000, Run: runReinit},
+		{Name: "cli", Quick: 510, Thorough: 6000, Run: runCli},
 	})
 }
